@@ -4,16 +4,23 @@
    history_forward, history_backward, go_to_history, cursor_up/down,
    auto_up/auto_down, validate, _validate_async, validate_and_handle,
    append_to_history), of history.py (History.load / get_strings /
-   append_string, InMemoryHistory) and of the end-of-history readline command.
+   append_string, _ensure_loaded; InMemoryHistory/FileHistory as an abstract
+   storage list; ThreadedHistory as patched: prepend counter, loader thread
+   stepping through its snapshot, consumer), of the end-of-history readline
+   command, of apply_search's landing and of the selection flag.
    Every function follows the Python statement by statement, as it stands in
    /repo now (after the fix: commits f4f2a3a get_strings() loads first, cb187ee
-   count 0 / negative counts, 46fed32 cursor up/down with counts below 1); the
-   two repaired functions are kept as `_pinned` definitions.
+   count 0 / negative counts, 46fed32 cursor up/down with counts below 1,
+   c767972 go_to_history ignores a negative index, 826cb7e a cursor movement
+   forgets a cached VALID verdict); repaired functions are
+   kept as `_pinned` definitions where a `_pinned_refuted` theorem uses them.
 
    Outside the model: completion state (assumed absent), read-only buffers,
-   events, undo stack, ThreadedHistory/FileHistory, and real asynchrony of the
-   validator (a scheduled validate-while-typing run completes before the next
-   operation). *)
+   events, undo stack, yank-nth-arg/yank-last-arg, the search algorithm (only
+   its landing), thread-level asynchrony (a scheduled validate-while-typing run
+   completes before the next operation unless that operation is flagged
+   "deferred"; ThreadedHistory's thread step / consumer chunk / append are
+   atomic, and the thread's snapshot is taken when load() first runs). *)
 From Coq Require Import ZArith List Bool.
 From PTK Require Import Lib.Sx Lib.Py Model.Document Model.BufferEdit.
 Import ListNotations.
@@ -88,7 +95,21 @@ Definition get_strings (h : hstore) : list str := rev (ls (ensure_loaded h)).
 Definition loaded_view (h : hstore) : list str := rev (ls h).
 
 (* _cursor_position_changed: only preferred_column is modelled *)
-Definition cursor_changed (s : hs) : hs := set_pref s None.
+(* since 826cb7e a cached VALID verdict is forgotten: it was computed for the
+   old cursor position (a cached error stays) *)
+Definition cursor_changed (s : hs) : hs :=
+  let s1 := set_pref s None in
+  if vst s1 =? V_VALID then set_vst s1 V_UNKNOWN else s1.
+
+(* as it stood before that fix (finding C14-F4) *)
+Definition cursor_changed_pinned (s : hs) : hs := set_pref s None.
+Definition set_cursor_pinned (s : hs) (v : Z) : hs :=
+  let n := len (match index (wl s) (wi s) with Some t => t | None => [] end) in
+  let v1 := if n <? v then n else v in
+  let v2 := if v1 <? 0 then 0 else v1 in
+  let v3 := Z.max 0 v2 in
+  let s1 := set_cur_raw s v3 in
+  if v3 =? cur s then s1 else cursor_changed_pinned s1.
 
 (* Buffer.cursor_position = v *)
 Definition set_cursor (s : hs) (v : Z) : hs :=
@@ -179,8 +200,9 @@ Definition history_backward (c : cfg) (s : hs) (count : Z) : hs :=
 Definition history_forward_pinned := history_forward_pos.
 Definition history_backward_pinned := history_backward_pos.
 
+(* as fixed by c767972: `if 0 <= index < len(self._working_lines)` *)
 Definition go_to_history (c : cfg) (s : hs) (i : Z) : hs :=
-  if i <? len (wl s) then
+  if (0 <=? i) && (i <? len (wl s)) then
     let s1 := set_wi c s i in set_cursor s1 (len (text s1))
   else s.
 
@@ -453,9 +475,7 @@ Definition step_core (c : cfg) (s : hs) (o : op) : outcome :=
   match o with
   | OBack n => ok (history_backward c s n)
   | OFwd n => ok (history_forward c s n)
-  | OGoto i =>
-      if i <? - len (wl s) then (E_INDEX, set_wi_raw s i, None)
-      else ok (go_to_history c s i)
+  | OGoto i => ok (go_to_history c s i)
   | OAutoUp n g => ok (auto_up c s n g)
   | OAutoDown n g => ok (auto_down c s n g)
   | OEnd => ok (end_of_history c s)
